@@ -229,8 +229,10 @@ def run(ctx):
                     for (t, v, a) in controlling_atoms(cf, bb):
                         if isinstance(t, tuple) and t[0] == "call" and t[1].endswith("HashSet::contains") and v is True:
                             conds.add(fmt_desc(panic.shape(t[2][1])).split(".")[-1])
-                    if getattr(d, "k", None) == "call" and d.callee and d.callee.short.endswith("HashSet::contains"):
-                        conds.add(fmt_desc(panic.shape(panic.norm(cf.describe(d.args[1], depth=8)))).split(".")[-1])
+                    dd = panic.norm(cf.describe_def(d, depth=8))
+                    if dd[0] == "call" and dd[1].endswith("HashSet::contains") and len(dd[2]) > 1:
+                        # the value returned on this path IS the second membership test
+                        conds.add(fmt_desc(panic.shape(dd[2][1])).split(".")[-1])
                     conds_all.append(conds)
                 okf = bool(conds_all) and all(c_ == {"u", "v"} for c_ in conds_all)
                 detail = str(conds_all)
